@@ -238,14 +238,17 @@ func (s *scanner) consumeIfComment(ch rune) bool {
 }
 
 func (s *scanner) skipToEndOfComment() {
+	// The comment ends at the first "*/" (or at the end of the input, if it is never closed)
+	prev := eof
 	for {
-		if ch := s.read(); ch == '*' {
-			for {
-				if ch := s.read(); ch == '/' {
-					return
-				}
-			}
+		ch := s.read()
+		if ch == eof {
+			return
 		}
+		if prev == '*' && ch == '/' {
+			return
+		}
+		prev = ch
 	}
 }
 
